@@ -146,6 +146,24 @@ def run_seq(acc, rnd, nops, cid, filename):
                     m["in"] = seq + 1
                 else:
                     m["out"] = seq + 1
+        elif op == "set" and rnd.random() < 0.12:
+            # a call the journal refuses (a counter below 1): refused means nothing changed - not the store, and not the session object
+            # the caller holds, from which the next valid call would write
+            s.next_num_in, s.next_num_out = m["in"], m["out"]
+            no, ni = rnd.choice([(5, 0), (0, 3), (-1, None), (None, 0), (7, -2)])
+            before_obj = (s.next_num_out, s.next_num_in)
+            try:
+                j.set_seq_num(s, next_num_out=no, next_num_in=ni)
+                V("set_seq_num-accepted-a-counter-below-one", f"set_seq_num(out={no}, in={ni}) returned")
+                continue
+            except Exception:
+                pass
+            acc.oracle("op-outcome")
+            trace.append(("set-refused", p, no, ni))
+            if (s.next_num_out, s.next_num_in) != before_obj:
+                V("refused-set-changed-the-session-object", f"set_seq_num(out={no}, in={ni}) was refused but the session object went from (out, in)={before_obj} "
+                  f"to {(s.next_num_out, s.next_num_in)}: the next valid call stores the refused number")
+                s.next_num_out, s.next_num_in = before_obj
         elif op == "set":
             no = rnd.choice([None, 1, 2, 5, 9, 50, 2 ** 41])
             ni = rnd.choice([None, 1, 3, 6, 50])
